@@ -224,7 +224,8 @@ def run(tier):
             if tier == "quick":
                 others = [g for g in others if g in own] + rnd.sample([g for g in others if g not in own], min(30, len([g for g in others if g not in own])))
             for g in others:
-                nm = sorted(set(own[h]) | set(own.get(g, []))) + few
+                # only names that h or g defines when included alone (internal files such as _fake_defines.h define none)
+                nm = sorted(set(own[h]) | set(own.get(g, []))) + [x for x in few if x in tdmap.get(h, ()) or x in tdmap.get(g, ())]
                 d = rnd.choice(DIALECTS)
                 pj.append(([h, g], d, nm, wd))
                 pj.append(([g, h], d, nm, wd))
